@@ -39,10 +39,14 @@ type p7Seed struct {
 }
 
 // samePlate builds a certificate with the issuer bytes and serial of c but K2's key.
-func samePlate(c *x509.Certificate) *x509.Certificate {
+func samePlate(c *x509.Certificate) *x509.Certificate { return samePlateK(c, 2) }
+
+// samePlateK: the same with key k (4 = a LARGER modulus than the usual signer's, 6 = 2047 bits,
+// 7 = public exponent 3).
+func samePlateK(c *x509.Certificate, k int) *x509.Certificate {
 	tmpl := &x509.Certificate{SerialNumber: c.SerialNumber, RawSubject: c.RawIssuer, NotBefore: keys.NotBefore, NotAfter: keys.NotAfter,
 		SignatureAlgorithm: x509.SHA256WithRSA, KeyUsage: x509.KeyUsageDigitalSignature, BasicConstraintsValid: true}
-	d, err := x509.CreateCertificate(rand.Reader, tmpl, tmpl, &keys.K(2).PublicKey, keys.K(2))
+	d, err := x509.CreateCertificate(rand.Reader, tmpl, tmpl, &keys.K(k).PublicKey, keys.K(k))
 	if err != nil {
 		panic(err)
 	}
@@ -858,6 +862,50 @@ func p7Edits(s p7Seed) []p7Edit {
 				t.ci.Children = []*der.Node{t.ci.Children[0], der.Cons(0xa0, payload)}
 				return true
 			})
+		}
+	}
+	// (e) an element more than the structure has, appended at every level (what a decoder that reads
+	// "the first element" and drops the rest lets through): inside the content wrapper the unsigned
+	// element rides along with signed content
+	{
+		levels := []struct {
+			name string
+			pick func(t *p7Tree) *der.Node
+		}{
+			{"the content wrapper [0], after the content", func(t *p7Tree) *der.Node {
+				if len(t.ci.Children) > 1 {
+					return t.ci.Children[1]
+				}
+				return nil
+			}},
+			{"the encapsulated ContentInfo", func(t *p7Tree) *der.Node { return t.ci }},
+			{"the SignerInfo", func(t *p7Tree) *der.Node { return t.si }},
+			{"the issuerAndSerialNumber", func(t *p7Tree) *der.Node { return t.si.Children[1] }},
+			{"the SignedData", func(t *p7Tree) *der.Node { return t.sd }},
+			{"the outer ContentInfo", func(t *p7Tree) *der.Node {
+				if t.root == t.sd {
+					return nil
+				}
+				return t.root
+			}},
+		}
+		for _, lv := range levels {
+			lv := lv
+			for _, what := range []string{"an OCTET STRING", "a copy of the last element"} {
+				what := what
+				add("one element more ("+what+") appended inside "+lv.name, func(t *p7Tree) bool {
+					n := lv.pick(t)
+					if n == nil || len(n.Children) == 0 {
+						return false
+					}
+					extra := der.Prim(0x04, []byte("rides along unsigned"))
+					if what != "an OCTET STRING" {
+						extra = n.Children[len(n.Children)-1].Clone()
+					}
+					n.Children = append(n.Children, extra)
+					return true
+				})
+			}
 		}
 	}
 	// (d) BER constructed OCTET STRING content (tag 0x24): well-formed and malformed segments
